@@ -126,7 +126,7 @@ func (repo *TxRepository) Add(ctx context.Context, txid bitcoin.Hash32, trusted,
 	}
 
 	// Check for already existing
-	for i := 0; i < len(data); i += bitcoin.Hash32Size {
+	for i := 0; i+bitcoin.Hash32Size <= len(data); i += bitcoin.Hash32Size {
 		if bytes.Equal(data[i:i+bitcoin.Hash32Size], txid[:]) {
 			return false, false, nil
 		}
@@ -167,7 +167,7 @@ func (repo *TxRepository) Remove(ctx context.Context, txid bitcoin.Hash32, heigh
 	}
 
 	// Check for match to remove
-	for i := 0; i < len(data); i += bitcoin.Hash32Size {
+	for i := 0; i+bitcoin.Hash32Size <= len(data); i += bitcoin.Hash32Size {
 		if bytes.Equal(data[i:i+bitcoin.Hash32Size], txid[:]) {
 			data = append(data[:i], data[i+bitcoin.Hash32Size:]...)
 			return true, repo.store.Write(ctx, path, data, nil)
@@ -201,7 +201,7 @@ func (repo *TxRepository) Contains(ctx context.Context, txid bitcoin.Hash32, hei
 	}
 
 	// Check for already existing
-	for i := 0; i < len(data); i += bitcoin.Hash32Size {
+	for i := 0; i+bitcoin.Hash32Size <= len(data); i += bitcoin.Hash32Size {
 		if bytes.Equal(data[i:i+bitcoin.Hash32Size], txid[:]) {
 			return true, nil
 		}
